@@ -32,6 +32,7 @@ type c01Node struct {
 	op     string // eq ne lt le gt ge contains ncontains icontains nicontains
 	l, r   *c01Node
 	q      *c01Node
+	sort   []c01Sort // sort fields of a sub-query
 	skip   *int64
 	limit  *int64
 	lit    c01Lit
@@ -39,6 +40,11 @@ type c01Node struct {
 	arrK   byte // 's' 'n' 't'
 	arr    []c01Lit
 	b      bool
+}
+
+type c01Sort struct {
+	name string
+	dir  string // "" (default: ascending) | "asc" | "desc"
 }
 
 func (l c01Lit) token() string {
@@ -114,7 +120,15 @@ func (n *c01Node) tokens(out *[]string) {
 	case "fn":
 		*out = append(*out, "fn", n.fn, n.name)
 	case "sub":
-		*out = append(*out, "sub", n.fn, n.name, optTok(n.skip), optTok(n.limit))
+		*out = append(*out, "sub", n.fn, n.name, strconv.Itoa(len(n.sort)))
+		for _, s := range n.sort {
+			if s.dir == "desc" {
+				*out = append(*out, s.name, "desc")
+			} else {
+				*out = append(*out, s.name, "asc")
+			}
+		}
+		*out = append(*out, optTok(n.skip), optTok(n.limit))
 		n.q.tokens(out)
 	case "bc":
 		if n.b {
@@ -171,6 +185,17 @@ func (n *c01Node) lhsZql() string {
 		return n.fn + "(" + n.name + ")"
 	case "sub":
 		s := n.fn + "(from " + n.name + " where " + n.q.zql()
+		for i, f := range n.sort {
+			if i == 0 {
+				s += " sort by "
+			} else {
+				s += ", "
+			}
+			s += f.name
+			if f.dir != "" {
+				s += " " + f.dir
+			}
+		}
 		if n.skip != nil {
 			s += " skip " + strconv.FormatInt(*n.skip, 10)
 		}
